@@ -102,4 +102,9 @@ CHECKS = {
                  "grid consistency of the polyline / surface exports for unequal sample counts.",
          "design_ref": "DESIGN.md section 6 C19", "note": _NOTE + " The distribution clause is statistical: false-alarm probability < 1e-6 per run (stated in the evidence).",
          "technique": "runtime monitoring: domain-membership oracle + statistical acceptance band + exact Bernstein reference"},
+ "C08": {"text": "Reference-model monitor: every discrete operator (cotangent / graph / dual / edge / volume Laplacians, gradient in complex and real form, mass "
+                 "matrices with inverse / sqrt options, adjacency and incidence operators, connection Laplacians) is assembled by the library on generated "
+                 "surfaces, tetrahedral meshes and polylines and compared with independently assembled dense matrices and with the defining identities "
+                 "(symmetry, zero row sums, L == stiffness, Re(G* A G) == L, gradient of affine functions, mass sums, one entry per incidence).",
+         "design_ref": "DESIGN.md section 6 C08", "note": _NOTE, "technique": "runtime monitoring: reference-model differential oracle (dense re-assembly) + algebraic identities"},
 }
